@@ -170,10 +170,10 @@ fn dia_q_user_poisonable_in_collection_scoped() {
 	assert!(r == user(panics), "C11_user_panic_propagates_to_the_caller_and_nothing_else_does");
 	assert!(w().held == 0 && sm.balanced_and_free() && sr.balanced_and_free(), "C11_every_lock_released_exactly_once_after_a_user_panic");
 	assert!(key_flag(), "C11_key_usable_or_obtainable_again_after_a_user_panic");
-	assert!(panics || !pz.is_poisoned(), "C10_executions_without_panics_never_poison");
-	assert!(!panics || pz.is_poisoned(), "C10_member_poisoned_by_a_panic_in_the_collections_scoped_closure");
 	kani::cover!(panics, "panic");
 	kani::cover!(!panics, "clean");
+	assert!(panics || !pz.is_poisoned(), "C10_executions_without_panics_never_poison");
+	assert!(!panics || pz.is_poisoned(), "C10_member_poisoned_by_a_panic_in_the_collections_scoped_closure");
 }}
 
 // ---- guards: PoisonRef::drop under a symbolic `std::thread::panicking()` ----
